@@ -18,7 +18,7 @@ def run(ctx):
         ctx.run_shards(bn, "TestVerifC07Net", 4, 900, "c07net")
     return driver.finish(
         ctx, "fault_enumeration",
-        "in every second scenario every 13th Write of either side is preceded by a Write of no bytes (must return 0 and disturb nothing); scenarios = (fate script over every DNS exchange {delivered, query lost, answer lost, query duplicated (copies handled one after the other, or 2/4 copies reaching the server at the same time as with one handler goroutine per datagram), old query replayed with lag "
+        "three scenarios with lagging readers (both applications sleep 2-5 ms after every Read and take what has piled up, up to 64 KiB, in one gulp; 6-12 MiB per direction); in every second scenario every 13th Write of either side is preceded by a Write of no bytes (must return 0 and disturb nothing); scenarios = (fate script over every DNS exchange {delivered, query lost, answer lost, query duplicated (copies handled one after the other, or 2/4 copies reaching the server at the same time as with one handler goroutine per datagram), old query replayed with lag "
         "1..65700}, fragment sizes 4-16 bytes (and realistic ones), starting sequence numbers {0,1,127,128,32768,65408,65535}, write sizes "
         "{1, frag-1, frag, frag+1, 3frag+2, 64KiB}, codecs/record types, with and without the real Handshake()+poller); both directions carry "
         "keyed streams simultaneously; oracle: bytes read are always a prefix of the bytes accepted by Write, isolated losses (bursts<=3) never "
